@@ -177,6 +177,10 @@ IdxFor(sh) ==
         [t |-> "adv", arrs |-> <<[sh |-> <<3>>, v |-> <<0, 1, 0>>]>>],
         [t |-> "adv", arrs |-> <<[sh |-> <<3>>, v |-> <<1, 1, 1>>], [sh |-> <<3>>, v |-> <<0, 2, 0>>]>>, as |-> "i2"],
         [t |-> "adv", arrs |-> <<[sh |-> <<3>>, v |-> <<0, 1, 0>>]>>, as |-> "u4"],
+        \* index arrays that broadcast against each other and name one element several times
+        [t |-> "adv", arrs |-> <<[sh |-> <<1>>, v |-> <<1>>], [sh |-> <<2>>, v |-> <<2, 2>>]>>],
+        [t |-> "adv", arrs |-> <<[sh |-> <<2, 1>>, v |-> <<0, 1>>], [sh |-> <<3>>, v |-> <<1, -2, 0>>]>>],
+        [t |-> "adv", arrs |-> <<[sh |-> <<2>>, v |-> <<-1, 1>>], [sh |-> <<1>>, v |-> <<0>>]>>, as |-> "list"],
         [t |-> "mask", m |-> [sh |-> sh, v |-> [i \in 1..Size(sh) |-> i % 3 # 0]]],
         [t |-> "mask", m |-> [sh |-> <<sh[1]>>, v |-> [i \in 1..sh[1] |-> i = 1]]]}
 GetProgs ==
@@ -369,7 +373,10 @@ FlagProgs ==
      upd \in {[k |-> "setitem", t |-> 2, ix |-> Basic(<<IntI(0)>>), val |-> [s |-> Q(7)]],
               [k |-> "aug", t |-> 2, f |-> "multiply", val |-> [s |-> Q(2)]],
               [k |-> "setitem", t |-> 1, ix |-> Basic(<<IntI(1)>>), val |-> [s |-> Q(-1)]],
-              [k |-> "uout", f |-> "negative", a |-> <<Opnd(2)>>, out |-> 2, where |-> [sh |-> <<>>, v |-> <<TRUE>>]]}}
+              [k |-> "uout", f |-> "negative", a |-> <<Opnd(2)>>, out |-> 2, where |-> [sh |-> <<>>, v |-> <<TRUE>>]],
+              \* the mask spelled as the Python bool False: nothing is computed, every tensor keeps its values
+              [k |-> "uout", f |-> "negative", a |-> <<Opnd(1)>>, out |-> 1, where |-> [sh |-> <<>>, v |-> <<FALSE>>], wsp |-> "py"],
+              [k |-> "uout", f |-> "multiply", a |-> <<Opnd(1), [s |-> Q(3)]>>, out |-> 1, where |-> [sh |-> <<>>, v |-> <<FALSE>>], wsp |-> "py"]}}
 InPlaceProgs ==
   UNION {{<< LeafO(1, <<2, 3>>, "NZ", ord) >> \o ch \o
             << IF upd = "aug" THEN [k |-> "aug", t |-> 1 + Len(ch), f |-> "multiply", val |-> Opnd(1 + Len(ch))]
